@@ -216,7 +216,11 @@ def batch_validation(ctx):
         as_ = [np.zeros(sh) for sh in shs]
         dis += _cmp(ctx, f"einsum:{spec}:{shs}", lambda: pt.einsum(spec, *xs), lambda: np.einsum(spec, *as_), stats)
     for s1, s2 in [((2, 3), (3, 4)), ((2, 3), (4, 3)), ((3,), (3,)), ((3,), (4,)), ((2, 3), (3,)), ((), (3,)),
-                   ((2, 2, 3), (3, 2)), ((2, 3), ())]:
+                   ((2, 2, 3), (3, 2)), ((2, 3), ()),
+                   # mixed rank with batch axes of different lengths: they align from the RIGHT
+                   ((2, 3, 2, 4), (3, 4, 5)), ((3, 4, 5), (2, 3, 5, 2)), ((2, 3, 2, 4), (2, 4, 5)), ((2, 1, 3, 2, 4), (3, 4, 2)),
+                   ((2, 3, 2, 4), (1, 4, 3)), ((4, 2, 3), (2, 4, 3, 5)), ((2, 3, 2, 4), (4,)), ((4,), (2, 3, 4, 2)),
+                   ((2, 3, 4, 2), (3,)), ((5, 2, 3, 2, 4), (3, 4, 2)), ((5, 2, 3, 2, 4), (5, 4, 2))]:
         cases += 1
         x1, x2 = pt.make_placeholder("m1", s1, np.float64), pt.make_placeholder("m2", s2, np.float64)
         dis += _cmp(ctx, f"matmul:{s1}@{s2}", lambda: x1 @ x2, lambda: np.zeros(s1) @ np.zeros(s2), stats)
